@@ -1246,7 +1246,11 @@ async def run_swarm(world: World, spec):
         world.count("swarm:setup_incomplete")
         return True, {"final": world.tables_empty()}
     await asyncio.sleep(spec["leave_after"] / TPS)
-    world.count(f"swarm:leave:ready_state={ready.state}:building_state={building.state}")
+    world.count(f"swarm:leave:ready_state={ready.state}:building_state={building.state}:"
+                f"destroys_{'lost' if spec.get('lose_destroys') else 'delivered'}")
+    if spec.get("lose_destroys"):
+        # nobody hears of the teardown: the introduction point's exit socket has to be reclaimed by its own do_remove
+        world.faults.append(Fault("drop", ["destroy"]))
     world.leave_swarm(1, info_hash)
     build_bound = (meta["circuit_timeout"] // meta["next_hop_timeout"] + 1 + hops) * meta["next_hop_timeout"]
     now = world.ticks()
@@ -1625,8 +1629,9 @@ def run_all(ctx: Ctx, n_random, use_model, with_exhaustive):
                 "bad_cands": [], "payload": "bt", "no_ipv6": False, "unsendable_exit": False}), use_model)
             idx += 1
         # teardown through HiddenTunnelCommunity.leave_swarm with a circuit of the swarm still extending
-        for hops, after in ((1, 3 * TPS), (2, 3 * TPS), (3, 5 * TPS)):
-            run_case(ctx, {"nodes": 5, "hops": hops, "leave_after": after}, use_model, kind="swarm")
+        for hops, after, lose in ((1, 3 * TPS, True), (2, 3 * TPS, False), (3, 5 * TPS, True), (2, 4 * TPS, True)):
+            run_case(ctx, {"nodes": 5, "hops": hops, "leave_after": after, "lose_destroys": lose}, use_model,
+                     kind="swarm")
         # a host without IPv6 (the "::" outside socket cannot be bound); an exit only known by host name
         for hops, td, extra in ((1, "o_destroy", {"no_ipv6": True}), (2, "o_abandon", {"no_ipv6": True}),
                                 (3, "exit_destroy", {"no_ipv6": True}), (2, "none", {"unsendable_exit": True}),
@@ -1681,7 +1686,8 @@ COVERAGE_FLOOR = [
     "fault:drop:", "fault:dup:", "fault:delay:", "wanting_node", "final_abandon",
     "originator_entry_already_reclaimed", "companions_alive_at_main_deadline", "companion:created",
     "age:circuit_still_ready_before_limit", "race:remove_now:", "race:destroy0:", "case:join", "case:early",
-    "join:limit=0", "join:limit=1", "join:limit=default", "extend_of_enabled_exit_socket", "swarm:leave:", "swarm:intro_points_registered", "swarm:data_circuit_alive_at_deadline", "ipv6_bind_refused", "unsendable_exit",
+    "join:limit=0", "join:limit=1", "join:limit=default", "extend_of_enabled_exit_socket", "swarm:leave:ready_state=READY:building_state=EXTENDING:destroys_lost",
+    "swarm:leave:ready_state=READY:building_state=EXTENDING:destroys_delivered", "swarm:intro_points_registered", "swarm:data_circuit_alive_at_deadline", "ipv6_bind_refused", "unsendable_exit",
     "hops:1", "hops:2", "hops:3", "phase:halfbuilt", "phase:ready", "phase:transfer", "obs_compared",
 ]
 
